@@ -156,6 +156,7 @@ func ed25519VerifyGates(c *an.Check) {
 		return
 	}
 	cLow := an.R("util/extra25519", "", "IsEdLowOrder")
+	lowOrderClassifier(c)
 	c.Gate(an.GateSpec{Construct: "crypto.Ed25519PublicKey.Verify reports a valid signature", Fn: vf,
 		Sink: func(s *an.State, ins ssa.Instruction) bool {
 			ret, ok := ins.(*ssa.Return)
